@@ -4,6 +4,8 @@ encoder output and foreign inputs; the model is evaluated by vm_compute with the
 primitives supplied as finite tables filled from CPython."""
 from __future__ import annotations
 
+import collections
+import collections.abc
 import copy
 import dataclasses
 import enum
@@ -211,11 +213,14 @@ def walk_py(v, depth=0):
     if dataclasses.is_dataclass(v) and not isinstance(v, type):
         for f in dataclasses.fields(v):
             yield from walk_py(getattr(v, f.name), depth + 1)
-    elif isinstance(v, dict):
+    elif isinstance(v, collections.ChainMap):
+        for m in v.maps:
+            yield from walk_py(m, depth + 1)
+    elif isinstance(v, collections.abc.Mapping):       # dict and its subclasses, MappingProxyType
         for k, x in v.items():
             yield from walk_py(k, depth + 1)
             yield from walk_py(x, depth + 1)
-    elif isinstance(v, (list, tuple, set, frozenset)):
+    elif isinstance(v, (list, tuple, set, frozenset, collections.deque)):
         for x in v:
             yield from walk_py(x, depth + 1)
 
@@ -230,17 +235,26 @@ Inductive tcase :=
 | CDec (E: senv) (t: sty) (d: pv) (e: option pv).
 """
 
-OK_FUN = """Definition ok (c: tcase) : bool :=
+OK_FUN = """Definition is_too_few (e: exn) : bool := match e with XOther s => String.eqb s "too few items" | _ => false end.
+Definition ok (c: tcase) : bool :=
   match c with
   | CEnc E t v e =>
       match pk E P v (cp true t), ref_enc E P v t with
       | Ok r, Ok r' => pv_same r e && pv_same r' e
       | _, _ => false end
   | CDec E t d e =>
-      match uk E P d (cu true t), ref_dec E P d t, e with
+      (* the generated unpacker and the reading of the reference it implements ... *)
+      match uk E P d (cu true t), ref_dec_l E P d t, e with
       | Ok r, Ok r', Some x => pv_same r x && pv_same r' x
       | Exn _, Exn _, None => true
       | _, _, _ => false end
+      (* ... and the documented reference, which is stricter on tuples with an unpacked segment only
+         (too few items: known finding C03/unpacked-tuple-short-input) *)
+      && match ref_dec E P d t, e with
+         | Ok r, Some x => pv_same r x
+         | Exn e', None => true
+         | Exn e', Some _ => is_too_few e'
+         | Ok _, None => false end
   end.
 """
 
@@ -322,6 +336,12 @@ def make_cases(rng, n_schemas: int, per_schema: int, depth: int = 3, foreign: in
             t = sg.namedtuple_type(depth - 1)
         elif c < 0.52:
             t = sg.typeddict_type(depth - 1)
+        elif c < 0.60:
+            # tuples with an unpacked segment: Tuple[a, Unpack[Tuple[b, ...]], c] / Tuple[a, Unpack[Tuple[b, c]], d]
+            t = sg.tupleu_type(depth - 1)
+        elif c < 0.64:
+            # nested constant expressions (positions that never read their input) next to reading ones
+            t = T("tuplefix", [sg.const_type(), sg.scalar(), sg.const_type()][:rng.randrange(1, 4)])
         else:
             t = sg.gen_type()
         if t.kind == "none":
@@ -352,8 +372,11 @@ def make_cases(rng, n_schemas: int, per_schema: int, depth: int = 3, foreign: in
                 inputs = [w] + truncations(w)
             else:
                 inputs = [w] + [corrupt(w, rng) for _ in range(foreign)] + null_variants(w, rng, 2)
-                if vi == 0 and t.kind in ("nt", "td", "tuplefix"):
+                if vi == 0 and t.kind in ("nt", "td", "tuplefix", "tupleu"):
                     inputs += [rng.choice(["", "1", "12", "abc"]), rng.choice([None, 7, {}, {"k0": 1}, []])]
+                if t.kind == "tupleu" and isinstance(w, list):
+                    # every prefix and a longer one: lengths below head + tail are read with overlapping indices
+                    inputs += [w[:n] for n in range(len(w))][:4] + [w + w[-1:]]
             for d in inputs:
                 d0 = copy.deepcopy(d)
                 try:
